@@ -2,6 +2,7 @@ import CvModel
 import Mathlib.Analysis.SpecialFunctions.Sqrt
 import Mathlib.Analysis.SpecialFunctions.Exp
 import Mathlib.Analysis.SpecialFunctions.Log.Basic
+import Mathlib.Analysis.SpecialFunctions.Pow.Real
 import Mathlib.Analysis.SpecialFunctions.Trigonometric.Inverse
 import Mathlib.Analysis.SpecialFunctions.Trigonometric.Arctan
 import Mathlib.Analysis.SpecialFunctions.Complex.Arg
@@ -19,6 +20,7 @@ noncomputable instance : Prim ℝ where
   sin := Real.sin
   cos := Real.cos
   atan2 := fun y x => Complex.arg ⟨x, y⟩
+  pow := fun x y => x ^ y
   floorI := fun x => ⌊x⌋
 
 noncomputable instance : Sc ℝ :=
@@ -30,6 +32,7 @@ noncomputable instance : Sc ℝ :=
 @[simp] theorem prim_acos (x : ℝ) : Prim.acos x = Real.arccos x := rfl
 @[simp] theorem prim_sin (x : ℝ) : Prim.sin x = Real.sin x := rfl
 @[simp] theorem prim_cos (x : ℝ) : Prim.cos x = Real.cos x := rfl
+@[simp] theorem prim_pow (x y : ℝ) : Prim.pow x y = x ^ y := rfl
 @[simp] theorem prim_floorI (x : ℝ) : Prim.floorI x = ⌊x⌋ := rfl
 @[simp] theorem floorS_real (x : ℝ) : floorS x = (⌊x⌋ : ℝ) := rfl
 @[simp] theorem sq_real (x : ℝ) : sq x = x * x := rfl
